@@ -20,7 +20,10 @@ TECHNIQUE = ('property-based testing (Hypothesis): generated library DAGs '
              'build directory')
 RULE = ('DAGs of 1-6 libraries (static_library, shared_library, dual-use '
         'library, versioned shared libraries, whole_archive use) and 1-3 '
-        'executables placed in generated nested output directories, each '
+        'executables placed in generated nested output directories (some '
+        'names string prefixes of a sibling), every library made of two '
+        'objects (one reached only through dependents) and reading an '
+        'exported variable, each '
         'declaring only its direct dependencies (in shuffled order), under '
         'every --enable/--disable-shared/static combination, make and '
         'reference ninja.  Non-trivial: >= 1 static library that itself '
